@@ -214,9 +214,19 @@ func vr2ReadAll(b *Bitmap, m []uint64) error {
 	}
 	var sum uint64
 	it, _ := b.Containers.Iterator(0)
+	first := true
+	var prev uint64
 	for it.Next() {
-		_, c := it.Value()
+		k, c := it.Value()
+		if !first && k <= prev {
+			return fmt.Errorf("container walk: key %d follows key %d (keys must be ascending and unique)", k, prev)
+		}
+		first, prev = false, k
 		sum += uint64(c.N())
+		// the container the walk shows under k is the one point lookups use
+		if g := b.Containers.Get(k); g != c {
+			return fmt.Errorf("container walk shows another container under key %d than Containers.Get", k)
+		}
 	}
 	if sum != uint64(len(m)) {
 		return fmt.Errorf("sum of container N=%d want %d", sum, len(m))
